@@ -45,7 +45,21 @@ def model(dae=False):
     return s
 
 
-def test_exprs(spec):
+def random_exprs(spec, seed):
+    """seeded random expression matrices over every kind of ingredient the property lists"""
+    rng = random.Random(seed)
+    lv = [X(i) for i in range(spec.nx)] + [U(i) for i in range(spec.nu)] + [Z(i) for i in range(spec.nz)] + [t, t, T, t0]
+    lv += [Pg(p.name) for p in spec.params if p.n == 1 and p.name not in ('pt0', 'pT')] + [Vg(v.name) for v in spec.vars]
+    out = []
+    for name, (r_, c_) in (('rscalar', (1, 1)), ('rcol', (3, 1)), ('rrow', (1, 2)), ('rmat', (2, 2))):
+        out.append((name, [[fam.rexpr(rng, lv, depth=2) for _ in range(c_)] for _ in range(r_)]))
+    out.append(('quad', [[Q(0) + X(0)]]))
+    return out
+
+
+def test_exprs(spec, seed=None):
+    if seed is not None:
+        return random_exprs(spec, seed)
     x0, x1 = X(0), X(1)
     u = U(0)
     out = []
@@ -63,7 +77,7 @@ def test_exprs(spec):
     return out
 
 
-GRIDS = [('control', {}), ('control-', {}), ('integrator', {}), ('integrator', {'refine': 2}), ('integrator', {'refine': 3}), ('integrator_roots', {})]
+GRIDS = [('control', {}), ('control-', {}), ('integrator', {}), ('integrator', {'refine': 2}), ('integrator', {'refine': 3}), ('integrator_roots', {})]      # (refine on grid='control' is honoured by SplineMethod only: C17)
 
 
 def instances(tier, seed):
@@ -91,6 +105,9 @@ def instances(tier, seed):
             if method == 'DC' and not fam.rational_tables(degree, scheme) and not fam.horizon_symbolic(h):
                 h = Hsym[n % len(Hsym)]
             add(spec=fam.with_horizon(model(dae), h), cfg=Cfg(method, N=N, M=M, intg=intg or 'rk', grid=g, degree=degree, scheme=scheme))
+            if tier != 'quick' or n % 3 == 0:
+                add(spec=fam.with_horizon(model(dae), h), cfg=Cfg(method, N=N, M=M, intg=intg or 'rk', grid=g, degree=degree, scheme=scheme),
+                    exprs_seed=seed * 1000 + 7 * n + 1, soft=True, family='random')
             n += 1
     return items
 
@@ -106,7 +123,7 @@ def leaf_list(mat):
 def run(item):
     spec, cfg = item['spec'], item['cfg']
     N, M = cfg.N, cfg.M
-    exprs = test_exprs(spec)
+    exprs = test_exprs(spec, item.get('exprs_seed'))
     grids = [g for g in GRIDS if not (g[0] == 'integrator_roots' and cfg.method != 'DC')]
     plan = []     # (kind, expr name, grid idx, what) aligned with extra outputs
 
@@ -219,7 +236,15 @@ def run(item):
         """reference value of primitive leaf at point i of grid g"""
         tr = trs[d]
         dom = tr.dom
-        if g in ('control', 'control-'):
+        if g == 'control' and 'refine' in kw:
+            # refined control grid: point i lies in control interval i//r at the fraction (i%r)/r; the very last point is the final node
+            r_ = kw['refine']
+            k, j_ = i // r_, i % r_
+            kk = min(k, N - 1)
+            if lf[0] in ('x', 'z', 'q') and j_ != 0:
+                return None          # in-between states are C08's subject
+            pts_t = tr.tc[k] if j_ == 0 else tr.tc[k] + (tr.tc[k + 1] - tr.tc[k]) * dom.const(Fr(j_, r_))
+        elif g in ('control', 'control-'):
             k = i
             kk = min(k, N - 1)
             pts_t = tr.tc[k]
@@ -296,7 +321,7 @@ def run(item):
         for i in range(n_):
             if anchor(what, g, kw, i, 0) is None:
                 continue
-            lab = 'anchor %s@%s[%d]' % (what, g, i)
+            lab = 'anchor %s@%s[%d]' % (what, g + ''.join('+%s=%s' % kv for kv in kw.items()), i)
             if not ch.prove(lab, {d: ex[d][idx][i] for d in doms}, {d: anchor(what, g, kw, i, d) for d in doms}) and ch.violations:
                 v = ch.violations.pop()
                 V('anchor:%s:%s' % (what[0], g), lab, 'sampled primitive differs from the trajectory quantity of that point: %s' % {k: v.get(k) for k in ('how', 'impl', 'ref')},
